@@ -29,6 +29,8 @@ class Session:
         C.bind_all(self.contracts)
         self.ver = Verifier(self.contracts, self.helpers)
         self.ver.lib_used = set()
+        self.ver.inlined = set()
+        self.ver.default_invariants = set()
 
     def generate(self, target: str) -> tuple[list[Obligation], dict]:
         return self.ver.verify(target)
@@ -93,28 +95,53 @@ def verify_into(ctx, files: list[str], targets: list[str] | None = None, *, time
             items.append((oid, solve.to_smt2(o.pc, o.goal)))
     for r in solve.discharge(items, timeout_ms, seed(), both=(tier == "thorough")):
         results[r.oid] = r
+    # unknown: look for a validated finite-shape counter-model first (DESIGN 2.4)
+    from . import refute
+
+    for oid, smt in items:
+        if results[oid].status == "unknown":
+            o = index[oid]
+            t1 = time.time()
+            try:
+                ok, why = refute.refute(o.pc, o.goal)
+            except z3.Z3Exception as e:
+                ok, why = False, f"refuter error: {e}"
+            if ok:
+                results[oid] = solve.Result(oid, "sat", "z3-finite-model", results[oid].time_s + time.time() - t1, model=why)
+            else:
+                results[oid].reason += f"; refuter: {why}"
     # one retry at 4x budget for unknowns
     retry = [(oid, smt) for oid, smt in items if results[oid].status == "unknown"]
     if retry:
         for r in solve.discharge(retry, timeout_ms * 4, seed() + 1):
             if r.status != "unknown":
                 results[r.oid] = r
-    # reachability (vacuity) checks: the path condition of discharged obligations must be satisfiable
+    # reachability (vacuity): a path whose condition is unsatisfiable is unreachable
+    # code; its obligations hold vacuously and are NOT counted.  A function none of
+    # whose paths is reachable has a contradictory contract: checker error.
     reach_items = []
-    picked: set[tuple[str, str]] = set()
+    picked: dict[tuple[str, str], str] = {}
     for oid, o in index.items():
         key = (o.fn, o.path)
-        if key in picked or not o.pc or results[oid].status != "unsat":
+        if key in picked or not o.pc:
             continue
-        picked.add(key)
+        picked[key] = oid
         reach_items.append((oid, solve.to_smt2(o.pc, z3.BoolVal(False))))
-    vac = 0
+    dead: set[tuple[str, str]] = set()
     for r in solve.discharge(reach_items, 5000, seed()):
         if r.status == "unsat":
-            vac += 1
             o = index[r.oid]
-            raise CheckerError(f"vacuous path in {o.fn}@{o.path}: path condition unsatisfiable")
+            dead.add((o.fn, o.path))
     ctx.reachability += len(reach_items)
+    for t in targets:
+        paths = {o.path for o in index.values() if o.fn == t}
+        live = [p for p in paths if (t, p) not in dead]
+        if not live:
+            raise CheckerError(f"{t}: no reachable path (contradictory contract)")
+        per_fn[t]["unreachable_paths"] = len(paths) - len(live)
+    for oid in [oid for oid, o in index.items() if (o.fn, o.path) in dead]:
+        del results[oid]
+        del index[oid]
 
     n_ok = 0
     for oid, r in results.items():
@@ -155,6 +182,10 @@ def verify_into(ctx, files: list[str], targets: list[str] | None = None, *, time
             ctx.sample({"obligation": o.oid, "goal_smt2": o.goal.sexpr()[:600], "hypotheses": len(o.pc)})
     ctx.trust(*sorted(sess.ver.lib_used))
     ctx.assume(*sorted(sess.ver.notes))
+    if sess.ver.default_invariants:
+        ctx.extra.setdefault('loops_cut_with_default_invariant', []).extend(sorted(sess.ver.default_invariants))
+    if sess.ver.inlined:
+        ctx.extra.setdefault('inlined_callees', []).extend(sorted(sess.ver.inlined))
     ctx.assume(*sess.meta.get("assumptions", []))
     for t, c in sess.contracts.items():
         if c.trusted:
